@@ -143,10 +143,20 @@ fn run_v<V: VringT<GM<()>> + Clone + Send + Sync + 'static>(sim: &Sim, cfg: &Run
                         // dispatching now?
                         let woke = sched::my_last_seq("worker.epoll_returned");
                         let when = if woke < q { "woken_before_reply" } else { "woken_after_reply" };
+                        // did the worker take its decision (read_kick) before the control path
+                        // changed the ring's state, or did it see the new state and go on anyway?
+                        let rk = sched::my_last_seq("worker.before_read_kick");
+                        let lab = match by {
+                            "GET_VRING_BASE" => "ctl.stop.state_changed",
+                            "RESET_DEVICE" => "ctl.reset.state_changed",
+                            _ => "ctl.enable.state_changed",
+                        };
+                        let sc = sched::last_seq_of_role("daemon", lab);
+                        let order = if rk < sc { "decided_before_state_change" } else { "decided_after_state_change" };
                         sched::soft_violation(Violation::new(
                             "C12",
                             "dispatch_after_disable_reply",
-                            format!("{by}:{when}"),
+                            format!("{by}:{when}:{order}"),
                             format!("event handler entered for ring {r} at event {} although the VMM received the reply to {by} at event {q} and has not enabled or started the ring since (the worker's epoll_wait had returned at event {woke})", d.seq),
                         ));
                     }
